@@ -38,7 +38,7 @@ void sim_mon_attempt(const char *cap, const char *fn, const char *arg) {
 /* paths the runtime itself may touch while the monitor is on (nothing at present) */
 
 static const char *open_cap(int flags) {
-    if ((flags & O_ACCMODE) != O_RDONLY || (flags & (O_CREAT | O_TRUNC | O_APPEND))) return "fs-write";
+    if ((flags & O_ACCMODE) != O_RDONLY || (flags & (O_CREAT | O_TRUNC))) return "fs-write";
     return "fs-read";
 }
 
@@ -230,7 +230,12 @@ int __wrap_unsetenv(const char *n) {
 /* modules */
 extern void *__real_dlopen(const char *, int);
 void *__wrap_dlopen(const char *p, int fl) {
-    REFUSE("modules", "dlopen", p ? p : "(self)", NULL);
+    if (MON) {
+        sim_mon_attempt("modules", "dlopen", p ? p : "(self)");
+        /* fails, and leaves dlerror() set as callers expect */
+        (void) __real_dlopen("/nonexistent-sim-marker/refused-by-monitor.so", fl);
+        return NULL;
+    }
     return __real_dlopen(p, fl);
 }
 /* dlsym is not wrapped: the sanitizer runtimes call it before they are initialised; a
